@@ -186,6 +186,20 @@ def gen_cases(rng, tier):
     big["neg"] = [enc(x) for x in _scores(rng, 110)]
     cases.append(big)
     k += 1
+    # big GroupScores (>= 100 per class): 'dynamic' resolves by the GroupScores rule (by_group -> replacement, otherwise
+    # single pass); the rows have to come from the sampler bootstrap_sample(config) itself uses
+    for strat_ in ("by_group", None, "by_label"):
+        bg = _one_case(rng, k, {"kind": "group", "nb_samples": 4,
+                                "sampler": {"type": "builtin", "sampling_method": "dynamic", "stratified": strat_, "ratio": None,
+                                            "seed": rng.randint(0, 10 ** 6)},
+                                "metric": {"type": "name", "name": "group_tpr", "kwargs": {"threshold": enc(Fraction(0))}}})
+        bg["pos"] = [enc(x) for x in _scores(rng, 115)]
+        bg["neg"] = [enc(x) for x in _scores(rng, 104)]
+        bg["pos_groups"] = [rng.randrange(3) for _ in range(115)]
+        bg["neg_groups"] = [rng.randrange(3) for _ in range(104)]
+        bg["more_kwargs"] = []
+        cases.append(bg)
+        k += 1
     while len(cases) < n:
         cases.append(_one_case(rng, k))
         k += 1
